@@ -16,6 +16,12 @@ const EXPRS: [&str; 5] = [
     "-pool flash -xattr user.tag -name a -name b -name c -iname a -ipath b -print -printf '%f\\n' -print",
 ];
 
+/// parses, but compile() fails after the time test has been translated
+const FAILING: &str = "-mmin -5 -user bob";
+/// call codes in a history: 0..4 = EXPRS[i], 5 = the failing compile, 6 = wait 1.1 s
+const FAIL: usize = 5;
+const SLEEP: usize = 6;
+
 fn now() -> u64 {
     SystemTime::now().duration_since(UNIX_EPOCH).unwrap().as_secs()
 }
@@ -56,6 +62,24 @@ fn check_history(h: &[usize], first: &[Obs], acc: &mut Acc) {
     acc.validated += 1;
     for (k, &i) in h.iter().enumerate() {
         let wit = json!({"kind": "history", "calls": h});
+        if i == SLEEP {
+            std::thread::sleep(Duration::from_millis(1100));
+            continue;
+        }
+        if i == FAIL {
+            match observe(FAILING) {
+                Err(e) if e.starts_with("compile error") => {}
+                other => {
+                    acc.violate(Violation::new(
+                        "C15:failing-compile-changed-its-answer",
+                        format!("history {h:?}, call {k}: compiling {FAILING:?} gave {:?} instead of a compile error", other.map(|o| o.program).unwrap_or_else(|e| e)),
+                        wit,
+                    ));
+                    return;
+                }
+            }
+            continue;
+        }
         match observe(EXPRS[i]) {
             Err(e) => {
                 acc.violate(Violation::new("C15:call-failed", format!("history {h:?}, call {k}: {e}"), wit));
@@ -124,11 +148,11 @@ pub fn run(ctx: &Ctx) -> i32 {
     // every history of <= 4 calls (sequentially: the point is the shared process state)
     let maxlen = 4;
     for len in 1..=maxlen {
-        for mut idx in 0..5usize.pow(len as u32) {
+        for mut idx in 0..6usize.pow(len as u32) {
             let mut h = vec![];
             for _ in 0..len {
-                h.push(idx % 5);
-                idx /= 5;
+                h.push(idx % 6);
+                idx /= 6;
             }
             check_history(&h, &first, &mut acc);
         }
@@ -168,6 +192,28 @@ pub fn run(ctx: &Ctx) -> i32 {
     if !dumps.is_empty() && mine != dumps[0] {
         acc.violate(Violation::new("C15:result-differs-between-processes", "the driver process and a fresh process disagree".to_string(), json!({"kind": "processes", "n": nproc})));
     }
+    // histories with a failing compile and the clock moving between calls
+    let mut timed: Vec<Vec<usize>> = vec![];
+    for a in [2usize, FAIL] {
+        for b in [2usize, 3] {
+            timed.push(vec![a, SLEEP, b]);
+        }
+    }
+    timed.push(vec![FAIL, FAIL, SLEEP, 2]);
+    if ctx.tier == speclib::report::Tier::Thorough {
+        for a in [2usize, 3, FAIL] {
+            for b in [2usize, FAIL] {
+                for c in [2usize, 3] {
+                    timed.push(vec![a, SLEEP, b, c]);
+                    timed.push(vec![a, b, SLEEP, c]);
+                    timed.push(vec![a, SLEEP, b, SLEEP, c]);
+                }
+            }
+        }
+    }
+    for h in &timed {
+        check_history(h, &first, &mut acc);
+    }
     // a compile issued after the process has been running for more than 2 s
     let up = ctx.start.elapsed();
     if up < Duration::from_millis(2200) {
@@ -182,8 +228,8 @@ fn fin(nproc: usize, maxlen: usize) -> Finish {
     Finish {
         level: "model_checking",
         exhaustive: true,
-        rule: "state = history of parse+compile calls in one process over five resource-rich expressions (two with time tests); every call's parse result, program (embedded clock second replaced) and destination table must equal the first result ever obtained for that expression; every embedded second must lie within the clock readings taken around its compile call, also for a call issued after the process has run for more than 2 s; the same five expressions are evaluated in fresh processes and the outputs compared byte-wise; distinct = distinct (expression, program) pairs".into(),
-        bound: format!("every call history of length 1..{maxlen} over 5 expressions (exhaustive); {nproc} fresh processes (the hash-seed dimension cannot be enumerated: it is covered by repetition, see DESIGN.md §1.2)"),
+        rule: "state = history of parse+compile calls in one process over five resource-rich expressions (two with time tests), a compile that fails after a time test was translated, and waits of 1.1 s (so the clock second changes between calls); every call's parse result, program (embedded clock second replaced) and destination table must equal the first result ever obtained for that expression; every embedded second must lie within the clock readings taken around its compile call, also for a call issued after the process has run for more than 2 s; the same five expressions are evaluated in fresh processes and the outputs compared byte-wise; distinct = distinct (expression, program) pairs".into(),
+        bound: format!("every call history of length 1..{maxlen} over 5 expressions and the failing compile (exhaustive); every history x·wait·y with x in {{time expression, failing compile}}, y a time expression (thorough: all such of length 4-5 with one or two waits); {nproc} fresh processes (the hash-seed dimension cannot be enumerated: it is covered by repetition, see DESIGN.md §1.2)"),
         assumptions: vec!["std HashMap seeds are per process/instance and not injectable: their dimension is sampled by fresh processes and fresh map instances, not enumerated".into()],
         extra: serde_json::Map::new(),
     }
@@ -195,7 +241,7 @@ pub fn replay(w: &Value) -> Vec<Violation> {
         Ok(v) => v,
         Err(e) => return vec![Violation::new("C15:call-failed", e, w.clone())],
     };
-    let h: Vec<usize> = w["calls"].as_array().map(|a| a.iter().filter_map(|x| x.as_u64().map(|v| v as usize % 5)).collect()).unwrap_or_else(|| vec![0, 1, 2, 3, 4]);
+    let h: Vec<usize> = w["calls"].as_array().map(|a| a.iter().filter_map(|x| x.as_u64().map(|v| v as usize % 7)).collect()).unwrap_or_else(|| vec![0, 1, 2, 3, 4]);
     check_history(&h, &first, &mut acc);
     acc.violations.into_values().map(|(v, _)| v).collect()
 }
